@@ -11,7 +11,7 @@ for d in seeded/*/; do
   git -C $R checkout -q -- . ; git -C $R apply $PWD/${d}patch.diff || { echo "$name: patch does not apply"; continue; }
   line="$name:"
   run_ids=$ids
-  if [ "$MATRIX_MODE" = own ]; then run_ids=$(echo $name | cut -c1-3); fi
+  if [ "$MATRIX_MODE" = own ]; then run_ids=$(python3 -c "import json;print(json.load(open('${d}meta.json'))['property'])"); fi
   for id in $run_ids; do
     out=$(./check $id 2>&1); rc=$?
     nv=$(echo "$out" | grep -c '^VIOLATION')
